@@ -6,6 +6,7 @@ FUNCTIONS = ["_dfs", "toposort", "Manager.find_taskids", "Manager.find_tasks", "
              "Manager.run_tasks", "Manager.run_tasks@consistency", "Manager.set_value", "ExprTask.run", "ExprTask.__init__"]
 RAC = "rac/c01.py"
 RAC_BUDGET = {"quick": 70, "thorough": 1200}
+RAC_MIN = {"quick": 2943, "thorough": 2943}      # fewer run-time evaluations than this = the harness skipped its work: checker broken, not "held"
 DESIGN_REF = "DESIGN.md section 4, C01 (and section 0)"
 TECHNIQUE = ("contract-based deductive verification of every function one assignment is composed of and of the composition step "
              "(pyvc: running a schedule with the proved find_tasks postcondition re-establishes consistency of every definition, "
